@@ -7,7 +7,7 @@
    [imap st k i]: the identity map of state [st] maps identity key [k] to object number [i]. *)
 From Coq Require Import List ZArith Bool.
 Import ListNotations.
-From SAV.orm Require Import IdMap IdMapSpec IdMapLemmas IdMapProofs IdMapMain.
+From SAV.orm Require Import IdMap IdMapSpec IdMapLemmas IdMapProofs IdMapMain IdMapPartial.
 Open Scope Z_scope.
 
 (* functional: in every reachable state (every history, every environment) an identity key is mapped to
@@ -76,6 +76,46 @@ Theorem c34_double_row_switch_refuted :
   one_persistent_per_key st = false /\ persistent_mapped st = false.
 Proof. exact double_row_switch. Qed.
 Print Assumptions c34_double_row_switch_refuted.
+
+(* key_consistent, right to left ("a persistent object is the mapped one"), PARTIAL: proved per step of the
+   model, not lifted to histories.  Every per-object step keeps it, and so does identity_map.replace() when
+   it evicts nobody; what is missing is a guard on histories ("no replace() ever evicts another object")
+   and the induction under it - the refutations above are exactly histories with such an eviction. *)
+Theorem c34_persistent_is_mapped_partial :
+  (forall h t, keeps pb (expunge_obj h t)) /\ (forall h, keeps pb (restore_expunge_obj h)) /\
+  (forall h, keeps pb (newly_deleted_obj h)) /\ keeps pb expire_obj /\ keeps pb end_tx_obj /\
+  (forall v, keeps pb (set_pk v)) /\ keeps pb revert_obj /\ (forall h k, keeps pb (register_obj h k)) /\
+  keeps pb (fun o => set_sess true (set_iimap true (set_isdel false o))) /\
+  keeps pb (fun o => set_isdel true (set_sess true (set_iimap true o))) /\
+  (forall o, okey o = None -> pb (set_sess true (set_inew true o)) = true) /\
+  (forall i k g st, Inv st -> (holder k st = None \/ holder k st = Some i) -> keeps pb g ->
+     SP (fun _ => pb) st -> SP (fun _ => pb) (app_all (claiming i k g) st)).
+Proof.
+  exact (conj keeps_pb_expunge (conj keeps_pb_restore_expunge (conj keeps_pb_newly_deleted (conj keeps_pb_expire
+        (conj keeps_pb_end_tx (conj keeps_pb_set_pk (conj keeps_pb_revert (conj keeps_pb_register (conj keeps_pb_update
+        (conj keeps_pb_delete (conj keeps_pb_save (claiming_without_eviction pb)))))))))))).
+Qed.
+Print Assumptions c34_persistent_is_mapped_partial.
+
+(* key_consistent, left to right ("what the map holds is attached"), PARTIAL in the same sense: every
+   per-object step keeps it except the two with a side condition - the key-switch restore of
+   _restore_snapshot needs the state to be attached (the refutation above), the commit-time detach of
+   transaction._deleted needs its members to be out of the map *)
+Theorem c34_mapped_is_attached_partial :
+  (forall h t, keeps ab (expunge_obj h t)) /\ (forall h, keeps ab (restore_expunge_obj h)) /\
+  (forall h, keeps ab (newly_deleted_obj h)) /\ keeps ab expire_obj /\ keeps ab end_tx_obj /\
+  (forall v, keeps ab (set_pk v)) /\ keeps ab revert_obj /\ keeps ab (set_iimap false) /\
+  (forall h k o, jb o = true -> ab o = true -> implb (inew o) (osess o) = true -> inew o || iimap o = true ->
+     ab (register_obj h k o) = true) /\
+  (forall old o, osess o = true -> ab (set_iimap true (set_key (Some old) o)) = true) /\
+  (forall o, ab o = true -> implb (itdel o) (negb (iimap o)) = true ->
+     ab (let o1 := if iimap o then expire_obj o else o in if itdel o1 then detach_obj false o1 else o1) = true).
+Proof.
+  exact (conj keeps_ab_expunge (conj keeps_ab_restore_expunge (conj keeps_ab_newly_deleted (conj keeps_ab_expire
+        (conj keeps_ab_end_tx (conj keeps_ab_set_pk (conj keeps_ab_revert (conj keeps_ab_evict (conj keeps_ab_register
+        (conj keeps_ab_unswitch keeps_ab_commit)))))))))).
+Qed.
+Print Assumptions c34_mapped_is_attached_partial.
 
 (* the consistency predicates are satisfiable on a history through loads and mutations *)
 Example c34_ex_consistent : let st := run h_good (init true [5]) in
